@@ -32,9 +32,21 @@ type maskCfg struct {
 	AppliedValue  string       `json:"applied_value,omitempty"`
 	MetricName    string       `json:"metric_name,omitempty"`
 	MetricLabels  []string     `json:"metric_labels,omitempty"`
+	// do_if of the mask (README: "Mask will be applied only if the condition
+	// holds"); the harness uses one documented form only: a field op `equal`
+	// on a top-level string field
+	DoIf *doIfCfg `json:"do_if,omitempty"`
 
 	// generator bookkeeping (not part of the plugin configuration)
 	GenClass string `json:"-"`
+}
+
+// doIfCfg: {"op":"equal","field":F,"values":[...]} - holds iff the event has
+// a top-level field F whose value is a string equal to one of the values.
+type doIfCfg struct {
+	Op     string   `json:"op"`
+	Field  string   `json:"field"`
+	Values []string `json:"values"`
 }
 
 type pluginCfg struct {
@@ -92,5 +104,19 @@ type testCase struct {
 	Config pluginCfg `json:"config"`
 	Events []string  `json:"events"` // JSON documents as sent to the pipeline
 	Class  string    `json:"class"`  // generator class of the configuration
+	// Par > 0 (families of the extension batches): after the sequential pass
+	// the same events are sent Par times through a second pipeline with
+	// GOMAXPROCS*2 processors (one plugin instance each, all started from the
+	// same config pointer, the way file.d starts an action)
+	Par int `json:"par,omitempty"`
 	trees  []*jnode  // parsed events (generator side)
+}
+
+func (p *pluginCfg) hasDoIf() bool {
+	for i := range p.Masks {
+		if p.Masks[i].DoIf != nil {
+			return true
+		}
+	}
+	return false
 }
